@@ -329,6 +329,9 @@ class AObjSource:
         self.st.closes += 1
         self.dead = True
         self.log.append(["close", self.st.name])
+        # a hand-written iterator may return anything from aclose(); a truthy value must not leak into an
+        # `__aexit__` result (it would suppress the exception leaving the `async with`)
+        return True
 
 
 class AObjNoCloseSource:
